@@ -28,3 +28,42 @@ package tax
 //@   ensures [none] rv == nil ==> (forall i int :: 0 <= i && i < len(r.Values) ==> !(applies(r.Values[i], tags, ext) && inForce(r.Values[i], date)))
 //@   ensures [first] rv != nil ==> (exists i int :: 0 <= i && i < len(r.Values) && r.Values[i] == rv && applies(rv, tags, ext) && inForce(rv, date) && (forall j int :: 0 <= j && j < i ==> !(applies(r.Values[j], tags, ext) && inForce(r.Values[j], date))))
 //@   loop 1 invariant forall j int :: 0 <= j && j < idx ==> !(applies(r.Values[j], tags, ext) && inForce(r.Values[j], date))
+//
+// ---- C02 / C20: what distinguishes a rate group
+//
+// extension maps are equal when they have the same keys with the same values
+//@ pred extEq(a Extensions, b Extensions) bool = forall k cbc.Key :: (has(a, k) <==> has(b, k)) && (has(a, k) ==> a[k] == b[k])
+//@ spec ratEq(a num.Amount, b num.Amount) bool = a.value * pow10(num.emax(a, b) - a.exp) == b.value * pow10(num.emax(a, b) - b.exp)
+//@ spec pctEq(p num.Percentage, q num.Percentage) bool = ratEq(p.amount, q.amount)
+//
+//@ func (em Extensions) Equals(other) (r)
+//@   assume [A-CARD] len(em) == len(other) && (forall k cbc.Key :: has(other, k) ==> has(em, k)) ==> (forall k cbc.Key :: has(em, k) ==> has(other, k))
+//@   assume [A-CARD1] (forall k cbc.Key :: has(em, k) <==> has(other, k)) ==> len(em) == len(other)
+//@   assume [A-CARD0] (len(em) == 0 <==> (forall k cbc.Key :: !has(em, k))) && (len(other) == 0 <==> (forall k cbc.Key :: !has(other, k)))
+//@   ensures r <==> extEq(em, other)
+//
+// class: the combo belongs to this rate group (key deliberately not compared)
+//@ pred class(rt *RateTotal, c *Combo) bool = extEq(rt.Ext, c.Ext) && rt.Country == c.Country && \
+//@    ((rt.Percent == nil && c.Percent == nil) || \
+//@     (rt.Percent != nil && c.Percent != nil && pctEq(*rt.Percent, *c.Percent) && \
+//@       ((rt.Surcharge == nil && c.Surcharge == nil) || (rt.Surcharge != nil && c.Surcharge != nil && pctEq(rt.Surcharge.Percent, *c.Surcharge)))))
+//
+//@ func (rt *RateTotal) matches(c) (r)
+//@   requires rt != nil && c != nil
+//@   ensures r <==> class(rt, c)
+//
+// sameGroup: two rows describe the same rate group
+//@ pred sameGroup(a *RateTotal, b *RateTotal) bool = extEq(a.Ext, b.Ext) && a.Country == b.Country && \
+//@    ((a.Percent == nil && b.Percent == nil) || \
+//@     (a.Percent != nil && b.Percent != nil && pctEq(*a.Percent, *b.Percent) && \
+//@       ((a.Surcharge == nil && b.Surcharge == nil) || (a.Surcharge != nil && b.Surcharge != nil && pctEq(a.Surcharge.Percent, b.Surcharge.Percent)))))
+//
+//@ func (rt *RateTotal) Matches(rt2) (r)
+//@   requires rt != nil && rt2 != nil
+//@   ensures r <==> sameGroup(rt, rt2)
+//
+//@ func (t *Total) Category(code) (ct)
+//@   requires t != nil && (forall i int :: 0 <= i && i < len(t.Categories) ==> t.Categories[i] != nil)
+//@   ensures ct == nil ==> (forall i int :: 0 <= i && i < len(t.Categories) ==> t.Categories[i].Code != code)
+//@   ensures ct != nil ==> (exists i int :: 0 <= i && i < len(t.Categories) && t.Categories[i] == ct && ct.Code == code && (forall j int :: 0 <= j && j < i ==> t.Categories[j].Code != code))
+//@   loop 1 invariant forall j int :: 0 <= j && j < idx ==> t.Categories[j].Code != code
